@@ -1784,3 +1784,13 @@ Proof. vm_compute. reflexivity. Qed.
 
 Lemma table0_length : length table0 = option_count.
 Proof. reflexivity. Qed.
+
+(* witness for the known finding impl:long-value-truncated: purge_delay with <63 spaces>"1x" *)
+Definition long_witness : bytes := repeatN 32 63 ++ [49; 120].
+Definition idx_purge_delay : nat := 15.
+Lemma long_value_refuted_lemma :
+  lenN long_witness = 65 /\ malformed_b false (map toupper long_witness) = true /\
+  o_name (tget table0 idx_purge_delay) = [112; 117; 114; 103; 101; 95; 100; 101; 108; 97; 121] /\
+  get_via_env idx_purge_delay long_witness = Some (1%Z, INITIALIZED, false) /\
+  o_value (tget table0 idx_purge_delay) <> 1%Z.
+Proof. vm_compute. repeat split; discriminate. Qed.
